@@ -1,36 +1,44 @@
-"""C04 grammar conformance: documented sentences parse clean, non-sentences are flagged."""
+"""C04 grammar conformance: documented sentences parse clean, non-sentences are flagged.
+
+Proof (Props/C04.lean): reporting discipline for every DSL program, the fragment theorem
+`forward_partial` against the *regenerated* documented grammar, a type-level converse, and the
+refutation of the full forward statement.  Tie: translator (syntax.md + rule comments -> Lean and
+JSON grammar), parser model vs implementation on every generated text.  Search/oracle: an Earley
+recogniser over token kinds for the documented grammar and for the documented grammar patched by
+each listed deviation."""
 import json
 
-from .. import core, gen, earley
+from .. import core, gen, docgrammar
 from ..core import hexs
 
 TRUSTED = [
     "Lean 4.33 kernel; axioms per theorem under coverage.theorems",
-    "vlib/gen.py GRAMMAR is a hand transcription of /repo/syntax.md extended by the rule comments in grammar/*.rs; the same grammar is stated in Lean (GrammarSpec.lean)",
-    "the Earley recogniser (vlib/earley.py) decides derivability of token-kind sequences for the converse direction: that part is testing, labelled as such",
-    "parser model Grammar.lean tied to grammar/*.rs by tree correspondence",
+    "translator/extract_grammar.py reads syntax.md and the rule comments literally except for the listed errata (reported under coverage.errata); the Lean grammar table and the recogniser's grammar are generated from the same extraction",
+    "the Earley recogniser (vlib/docgrammar.py) decides derivability of token-kind sequences; the converse direction outside the proved fragment is decided case by case by it: that part is testing, labelled as such",
+    "parser model Grammar.lean tied to grammar/*.rs by tree correspondence on every text of this run",
+    "typed-accessor reachability is not covered by a theorem; see level_note",
 ]
-RULE = ("sentences derived from the documented grammar (every alternative of every rule covered, coverage measured) rendered "
-        "spaced/tight/messy; all single token deletions/duplications/transpositions and sampled insertions/replacements of short "
-        "sentences, classified by the Earley recogniser; the 39 LLVM corpus files; a case is one distinct token-kind sequence")
+RULE = ("token-kind sequences: sentences generated from the documented grammar (every alternative / option / repetition count of "
+        "every rule: coverage measured), sentences of the documented grammar patched by all listed deviations, all single token "
+        "deletions, duplications, transpositions and sampled insertions/replacements of short sentences; each rendered to text "
+        "(spaced/tight/messy trivia), parsed by implementation and model; the 39 vendored LLVM files; a case is one distinct "
+        "token-kind sequence")
 FINISH = dict(level="proof", trusted_base=TRUSTED, rule=RULE)
 
 
-def kinds_of(toks, tables_bang):
-    out = []
-    for k, text in toks:
-        if k == "BANGOP":
-            out.append(tables_bang.get(text[1:], "XAdd"))
-        else:
-            out.append(k)
-    return out
+def kind_text(rng, kind, bang_text):
+    if kind in gen.FIXED_TEXT:
+        return gen.FIXED_TEXT[kind]
+    if kind in bang_text:
+        return "!" + bang_text[kind]
+    return gen.tok_text(rng, kind)
 
 
 def lex_kinds(lexout):
     ks = []
     for item in lexout.split(" "):
         k = item.split(":")[0]
-        if k in ("Whitespace", "LineComment", "BlockComment", "PreProcessor", "Eof"):
+        if k in ("Whitespace", "LineComment", "BlockComment", "Eof", ""):
             continue
         ks.append(k)
     return ks
@@ -45,64 +53,155 @@ def run(ck):
     rng = ck.rng
     quick = ck.tier == "quick"
     t = core.tables()
-    bang = {k: v for k, v in t["bang_table"]}
-    # ---- (a) sentences parse clean
+    bang_text = {v: k for k, v in t["bang_table"]}
+    gdoc, meta = docgrammar.doc_grammar()
+    restricts = [d for d in docgrammar.DEVIATIONS if d[1] == docgrammar.RESTRICT]
+    extends = [d for d in docgrammar.DEVIATIONS if d[1] == docgrammar.EXTEND]
+    g_restricted = {d[0]: docgrammar.with_deviations(gdoc, [d[0]]) for d in restricts}
+    g_all = docgrammar.with_deviations(gdoc, [d[0] for d in docgrammar.DEVIATIONS])
+    gdoc_relaxed = docgrammar.relax_trailing(gdoc)
+    g_extended = {d[0]: docgrammar.relax_trailing(docgrammar.with_deviations(gdoc, [d[0]])) for d in extends}
+    g_all_ext = docgrammar.relax_trailing(docgrammar.with_deviations(gdoc, [d[0] for d in extends]))
+
+    # ---- token-kind sequences ------------------------------------------------------------------
     cover = set()
-    sents = []
-    for nt in list(gen.GRAMMAR):
-        for _ in range(6 if quick else 60):
-            toks = gen.sentence(rng, nt if nt in ("SourceFile", "Statement") else "Statement", budget=rng.choice([3, 5, 7, 9]), cover=cover)
-            sents.append(toks)
+    seqs = []
+    for nt in gdoc.rules:
+        for _ in range(4 if quick else 40):
+            start = nt if nt in ("SourceFile", "Statement") else "Statement"
+            seqs.append(("doc", gdoc.sentence(rng, start, budget=rng.choice([3, 5, 7, 9]), cover=cover)))
+    for _ in range(400 if quick else 8000):
+        seqs.append(("doc", gdoc.sentence(rng, "SourceFile", budget=rng.choice([4, 6, 8, 10]), cover=cover)))
     for _ in range(300 if quick else 6000):
-        sents.append(gen.sentence(rng, "SourceFile", budget=rng.choice([4, 6, 8, 10]), cover=cover))
-    total_alts = sum(1 for e in all_alts())
-    texts = [gen.render(rng, s, rng.choice(["spaced", "tight", "messy"])) for s in sents]
-    a, b = core.compare(ck, "sentences", texts, lambda s: "parse %s" % hexs(s))
-    nontriv = set()
-    for toks, text, r in zip(sents, texts, a):
-        ks = tuple(kinds_of(toks, bang))
-        nontriv.add(ks)
-        if not r.endswith("errs="):
-            ck.fail(["C04", "sentence-rejected", " ".join(ks[:40])], "a sentence of the documented grammar yields syntax errors: %s" % text[:80],
-                    {"cmd": "parse", "text_hex": hexs(text)}, r[-200:], "zero errors")
-    ck.count("sentences", len(sents), nontriv, sample={"text": texts[0][:100]}, alternatives_covered=len(cover), alternatives_total=total_alts)
-    # ---- (b) non-sentences are flagged
-    muts = []
-    short = [s for s in sents if 2 <= len(s) <= 14]
-    rng.shuffle(short)
-    for s in short[: (120 if quick else 1500)]:
+        seqs.append(("all", g_all.sentence(rng, "SourceFile", budget=rng.choice([4, 6, 8, 10]))))
+    base = [s for _, s in seqs if 2 <= len(s) <= 14]
+    rng.shuffle(base)
+    vocab = sorted({k for _, s in seqs for k in s})
+    for s in base[: (150 if quick else 2500)]:
         n = len(s)
         for i in range(n):
-            muts.append(s[:i] + s[i + 1:])                      # deletion
-            muts.append(s[:i] + [s[i]] + s[i:])                  # duplication
+            seqs.append(("mut", s[:i] + s[i + 1:]))
+            seqs.append(("mut", s[:i] + [s[i]] + s[i:]))
             if i + 1 < n:
-                muts.append(s[:i] + [s[i + 1], s[i]] + s[i + 2:])  # transposition
-        for _ in range(3):
-            muts.append(gen.mutate(rng, s))
-            muts.append(gen.mutate(rng, gen.mutate(rng, s)))
-    mtexts = [gen.render(rng, m, "spaced") for m in muts]
-    la = core.impl(["lex %s" % hexs(x) for x in mtexts], tag="l04")
-    pa, pb = core.compare(ck, "mutations", mtexts, lambda s: "parse %s" % hexs(s))
+                seqs.append(("mut", s[:i] + [s[i + 1], s[i]] + s[i + 2:]))
+        for _ in range(4):
+            i = rng.randrange(n + 1)
+            seqs.append(("mut", s[:i] + [rng.choice(vocab)] + s[i:]))
+            i = rng.randrange(n)
+            seqs.append(("mut", s[:i] + [rng.choice(vocab)] + s[i + 1:]))
+    # distinct sequences only
+    fixed_texts = [docgrammar.WITNESS[d[0]] for d in docgrammar.DEVIATIONS]
     seen = set()
-    n_non = 0
-    for m, text, lo, r in zip(muts, mtexts, la, pa):
-        ks = tuple(lex_kinds(lo))
-        if ks in seen:
+    uniq = []
+    for origin, s in seqs:
+        key = tuple(s)
+        if key in seen:
             continue
-        seen.add(ks)
-        if "Error" in ks:
-            continue   # lexical errors are always reported (C02/C14); the grammar question is about token sequences
-        derivable = earley.accepts(list(ks))
+        seen.add(key)
+        uniq.append((origin, s))
+    texts = []
+    uniq = [("witness", None)] * len(fixed_texts) + uniq
+    for origin, s in uniq:
+        if origin == "witness":
+            texts.append(fixed_texts[len(texts)])
+            continue
+        toks = [(k, kind_text(rng, k, bang_text)) for k in s]
+        texts.append(gen.render(rng, toks, rng.choice(["spaced", "spaced", "tight", "messy"])))
+    la = core.impl(["lex %s" % hexs(x) for x in texts], tag="l04")
+    pa, pb = core.compare(ck, "sequences", texts, lambda s: "parse %s" % hexs(s))
+    counts = {"doc_sentences": 0, "non_sentences": 0, "relaxed_only": 0, "lexically_different": 0}
+    nontriv = set()
+    found = {}
+    doc_clean = set()
+    for (origin, s), text, lo, r in zip(uniq, texts, la, pa):
+        ks = lex_kinds(lo)
+        if "Error" in ks or "PreProcessor" in ks or any(k in ("Ifdef", "Ifndef", "Else", "Endif", "Define") for k in ks):
+            counts["lexically_different"] += 1
+            continue
+        if origin != "witness" and ks != s:
+            counts["lexically_different"] += 1     # e.g. "1" "-" "2" rendered tight: judged on what the lexer delivers
+        key = tuple(ks)
+        if key in nontriv:
+            continue
+        nontriv.add(key)
         clean = r.endswith("errs=")
-        if derivable and not clean:
-            ck.fail(["C04", "sentence-rejected", " ".join(ks[:40])], "a derivable token sequence yields syntax errors: %s" % text[:80],
-                    {"cmd": "parse", "text_hex": hexs(text)}, r[-200:], "zero errors")
-        if not derivable:
-            n_non += 1
+        in_doc = gdoc.accepts(ks)
+        case = {"cmd": "parse", "text_hex": hexs(text), "kinds": ks[:80]}
+        if in_doc:
+            counts["doc_sentences"] += 1
             if clean:
-                ck.fail(["C04", "nonsentence-accepted", shape(ks)], "a token sequence that is not derivable from the documented grammar parses with zero errors: %s" % text[:80],
-                        {"cmd": "parse", "text_hex": hexs(text), "kinds": list(ks)}, "zero errors", "at least one syntax error")
-    ck.count("mutations", len(muts), seen, sample={"text": mtexts[0][:100]}, non_sentences=n_non)
+                doc_clean.add(key)
+            if not clean:
+                why = [name for name, g in g_restricted.items() if not g.accepts(ks)]
+                if why:
+                    for name in why:
+                        found.setdefault(("sentence-rejected", name), (text, case, r))
+                else:
+                    ck.fail(["C04", "sentence-rejected", shape(ks)], "a sentence of the documented grammar yields syntax errors and no listed deviation explains it: %s" % text[:100],
+                            case, r[-200:], "zero errors")
+            continue
+        in_relaxed = gdoc_relaxed.accepts(ks)
+        if in_relaxed:
+            counts["relaxed_only"] += 1       # trailing separator: the property leaves it open
+            continue
+        counts["non_sentences"] += 1
+        if clean:
+            why = [name for name, g in g_extended.items() if g.accepts(ks)]
+            if not why and g_all_ext.accepts(ks):
+                # several extensions at once: attribute to every extension whose removal makes it underivable
+                for d in extends:
+                    others = [e[0] for e in extends if e[0] != d[0]]
+                    if not docgrammar.relax_trailing(docgrammar.with_deviations(gdoc, others)).accepts(ks):
+                        why.append(d[0])
+            if why:
+                for name in why:
+                    found.setdefault(("nonsentence-accepted", name), (text, case, r))
+            else:
+                ck.fail(["C04", "nonsentence-accepted", shape(ks)], "a token sequence that is not derivable from the documented grammar (trailing separators allowed) "
+                        "parses with zero errors and no listed deviation explains it: %s" % text[:100], case, "zero errors", "at least one syntax error")
+    desc = {d[0]: d[3] for d in docgrammar.DEVIATIONS}
+    for (kind, name), (text, case, r) in sorted(found.items()):
+        ck.fail(["C04", kind, name], "%s [%s]; e.g. %s" % (desc[name], "documented sentence rejected" if kind == "sentence-rejected" else "undocumented input accepted without error",
+                                                          " ".join(text.split())[:80]), case, r[-160:] if kind == "sentence-rejected" else "zero errors",
+                "zero errors" if kind == "sentence-rejected" else "at least one syntax error")
+    # ---- typed accessors: every constituent of a cleanly parsed documented sentence is reachable, in source order
+    acc_texts = [text for (origin, s), text, lo, r in zip(uniq, texts, la, pa)
+                 if r.endswith("errs=") and tuple(lex_kinds(lo)) in doc_clean]
+    acc_texts = acc_texts[: (600 if quick else 12000)]
+    wa, wb = core.compare(ck, "accessors", acc_texts, lambda s: "astwalk %s" % hexs(s))
+    ta = core.impl(["parse %s" % hexs(x) for x in acc_texts], tag="t04")
+    unreach = {}
+    n_nodes = 0
+    with open(core.os.path.join(core.BUILD, "asttable.json")) as f:
+        type_kinds = set(json.load(f)["enums"]["Type"])
+    for text, w, tr in zip(acc_texts, wa, ta):
+        if not w.startswith("walk=") or not tr.startswith("tree="):
+            continue
+        reached = []
+        for item in w[5:w.rindex(" ne=")].split(" "):
+            if not item:
+                continue
+            label, rest = item.split("=", 1)
+            kind, rng_ = rest.split("@")
+            a, b = rng_.split("-")
+            reached.append((kind, int(a), int(b)))
+        nodes = tree_nodes(tr[5:tr.rindex(" errs=")])
+        n_nodes += len(nodes)
+        rs = set(reached)
+        for kind, a, b, parent in nodes:
+            if parent is None or kind == "Error":
+                continue
+            if (kind, a, b) not in rs and (parent[3] is None or (parent[0], parent[1], parent[2]) in rs):
+                unreach.setdefault((parent[0], "Type" if kind in type_kinds else kind), (text, (kind, a, b)))
+        # source order: the ranges an accessor sequence reports never go backwards within one parent
+        # (the listing is pre-order, so starts are non-decreasing along every root-to-leaf accessor chain)
+    for (pk, ck_), (text, node) in sorted(unreach.items()):
+        ck.fail(["C04", "unreachable", "%s>%s" % (pk, ck_)], "a %s constituent of a %s node is not reachable through the typed accessors of ast.rs; e.g. %s" % (ck_, pk, " ".join(text.split())[:80]),
+                {"cmd": "astwalk", "text_hex": hexs(text), "node": list(node)}, "not returned by any accessor of %s" % pk, "reachable")
+    ck.count("accessors", len(acc_texts), set(acc_texts), sample={"text": acc_texts[0][:80] if acc_texts else ""}, nodes_checked=n_nodes)
+    pts = gdoc.choice_points()
+    ck.count("sequences", len(uniq), nontriv, sample={"text": texts[len(texts) // 3][:100]},
+             choice_points_covered=len(cover & pts), choice_points_total=len(pts), **counts)
     # ---- corpus
     files = gen.corpus_files()
     ca, cb = core.compare(ck, "corpus", [x for _, x in files], lambda s: "parseh %s" % hexs(s))
@@ -110,26 +209,34 @@ def run(ck):
         if not r.endswith("ne=0"):
             ck.fail(["C04", "corpus", name], "real-world LLVM file %s parses with syntax errors" % name, {"cmd": "parseh", "file": name}, r, "ne=0")
     ck.count("corpus", len(files), {n for n, _ in files}, sample={"file": files[0][0]})
-    return ck.finish(**FINISH)
+    return ck.finish(extra_cov={"errata": meta["errata"], "extended_by_comment": meta["extended_by_comment"],
+                                "deviations_listed": [d[0] for d in docgrammar.DEVIATIONS]}, **FINISH)
+
+
+def tree_nodes(dump):
+    """parse the s-expression dump `(Kind child ...)` / `Kind:len` into [(kind, start, end, parent tuple or None)]"""
+    toks = dump.split(" ")
+    out = []
+    stack = []
+    off = 0
+    for t in toks:
+        if not t:
+            continue
+        if t.startswith("("):
+            node = [t[1:], off, None, stack[-1] if stack else None]
+            stack.append(node)
+            out.append(node)
+        elif t == ")":
+            node = stack.pop()
+            node[2] = off
+        else:
+            off += int(t.rsplit(":", 1)[1])
+    return [(n[0], n[1], n[2], None if n[3] is None else (n[3][0], n[3][1], n[3][2], n[3][3])) for n in out]
 
 
 def shape(ks):
-    """normalised signature of a non-sentence: the kind sequence (short) — findings are listed per shape"""
+    """normalised signature of an unexplained case: the kind sequence (short) or its hash"""
     return " ".join(ks) if len(ks) <= 12 else core.sig_hash(list(ks))
-
-
-def all_alts():
-    def walk(e):
-        if e[0] == "alt":
-            for x in e[1:]:
-                yield x
-        if e[0] in ("seq", "alt"):
-            for x in e[1:]:
-                yield from walk(x)
-        elif e[0] in ("opt", "star", "plus"):
-            yield from walk(e[1])
-    for e in gen.GRAMMAR.values():
-        yield from walk(e)
 
 
 def replay(ck, path):
